@@ -64,7 +64,8 @@ NStep(st0, r) ==
     [] r.k = "enddo" ->
          \* labelled END DO terminates exactly the labelled DO on top with that label
          IF NTop(st).k = "dol" /\ NTop(st).l = r.l /\ r.n = NTop(st).n THEN NPop(st)
-         ELSE IF NTop(st).k \in {"do", "doconc"} /\ r.l = 0 /\ r.n = NTop(st).n THEN NPop(st)
+         \* an END DO closing an unlabelled DO may carry a statement label of its own (not that of an open labelled DO)
+         ELSE IF NTop(st).k \in {"do", "doconc"} /\ r.n = NTop(st).n /\ (r.l = 0 \/ ~HasOpenLab(st, r.l)) THEN NPop(st)
          ELSE NBad
     [] r.k = "endu" ->
          \* END [kind [name]]: bare END closes any unit; END kind must match the kind; name must match
